@@ -1,3 +1,4 @@
 import Driver.Loop
-/-! Driver for group `hints`: replace `[]` by this group's handlers. -/
-def main : IO Unit := TF.Driver.run []
+import Driver.Hints
+/-! Driver for group `hints` (C05, C04). -/
+def main : IO Unit := TF.Driver.run [TF.Driver.handleHints]
